@@ -407,6 +407,7 @@ type c38Net struct {
 	x        *mc.X
 	nodes    []*c38Node
 	inflight []c38Msg
+	originated []string   // every (origin,id) originated in this execution
 	out      []*c38Stream // streams opened by the running invocation
 	running  int          // node whose code runs, -1 = none
 }
@@ -466,6 +467,28 @@ var c38Topos = []c38Topo{
 	{"diamond4", 4, [][2]int{{0, 1}, {1, 2}, {2, 3}, {3, 0}, {0, 2}}, 0, false},
 	{"complete4", 4, [][2]int{{0, 1}, {0, 2}, {0, 3}, {1, 2}, {1, 3}, {2, 3}}, 0, false},
 }
+
+// c38Clocks: how far the first origin's clock is off when it stamps CreateTime
+// (the field is written by the origin and never validated by a receiver).
+// "accurate" goes through the ordinary Multicast() path (empty Origin); the
+// others hand Multicast() the exact message an origin with such a clock would
+// build: own address as Origin, an id, CreateTime = its idea of "now".
+var c38Clocks = []struct {
+	name string
+	zero bool
+	off  time.Duration
+}{
+	{"accurate", false, 0},
+	{"30s-behind", false, -30 * time.Second},
+	{"2min-behind", false, -2 * time.Minute},
+	{"CreateTime=0", true, 0},
+	{"2min-ahead", false, 2 * time.Minute},
+}
+
+// c38Jump is the one step of virtual time an execution may take: "45 s pass
+// on every node". It stays inside the one-minute window counted from any
+// receipt with 15 s to spare for the real milliseconds an execution lasts.
+const c38Jump = 45 * time.Second
 
 var c38Variants = []string{"all-joined", "observer-in-the-middle", "last-edge-kept-not-neighbour", "middle-has-no-group(relay)"}
 
@@ -552,8 +575,14 @@ func (n *c38Net) index(a boson.Address) int {
 func (n *c38Net) canon(pending string) string {
 	var b strings.Builder
 	for _, nd := range n.nodes {
-		keys, err := nd.cache.KeyStrings(cacheCtx)
+		all, err := nd.cache.KeyStrings(cacheCtx)
 		n.x.NoErr(err, "cache keys")
+		keys := all[:0]
+		for _, k := range all {
+			if k != "" { // expired entries show up as padding
+				keys = append(keys, k)
+			}
+		}
 		sort.Strings(keys)
 		fmt.Fprintf(&b, "n%d seq=%d cache=%v", nd.idx, nd.svc.msgSeq, keys)
 		for _, mp := range []map[string]int{nd.notified, nd.fwdInv} {
@@ -584,6 +613,7 @@ func TestVerifC38Flood(t *testing.T) {
 	maxMsgs := 2
 	maxDev := mc.EnvInt("VERIF_C38_DEV", mc.Pick(1, 3))
 	// second message only on topologies with at most this many edges
+	jumps := mc.EnvInt("VERIF_C38_JUMPS", 1)
 	twoMsgMaxEdges := mc.EnvInt("VERIF_C38_TWOMSG_EDGES", 3)
 	// two interleaved floods multiply the state space: fewer deviations there
 	twoMsgDev := mc.EnvInt("VERIF_C38_TWOMSG_DEV", mc.Pick(1, 2))
@@ -599,7 +629,10 @@ func TestVerifC38Flood(t *testing.T) {
 	type config struct {
 		tp              c38Topo
 		variant, o1, o2 int
+		clock           int // index into c38Clocks: how the first origin stamps CreateTime
 	}
+	// origin clocks explored for single-message configurations (index 0 = accurate)
+	nClocks := mc.EnvInt("VERIF_C38_CLOCKS", mc.Pick(4, len(c38Clocks)))
 	var configs []config
 	for _, tp := range c38Topos[topo0:nTopo] {
 		nVar := 3
@@ -608,14 +641,20 @@ func TestVerifC38Flood(t *testing.T) {
 		}
 		for v := 0; v < nVar; v++ {
 			for o1 := 0; o1 < tp.n; o1++ {
-				configs = append(configs, config{tp, v, o1, -1})
+				for ck := 0; ck < nClocks; ck++ {
+					configs = append(configs, config{tp, v, o1, -1, ck})
+				}
 				if maxMsgs > 1 && len(tp.edges) <= twoMsgMaxEdges && tp.n <= twoMsgMaxNodes {
 					for o2 := 0; o2 < tp.n; o2++ {
-						configs = append(configs, config{tp, v, o1, o2})
+						configs = append(configs, config{tp, v, o1, o2, 0})
 					}
 				}
 			}
 		}
+	}
+	var clockNames []string
+	for _, c := range c38Clocks[:nClocks] {
+		clockNames = append(clockNames, c.name)
 	}
 	var topoNames []string
 	for _, tp := range c38Topos[topo0:nTopo] {
@@ -624,6 +663,7 @@ func TestVerifC38Flood(t *testing.T) {
 	mc.Run(t, mc.Config{ID: "C38", Name: "C38-flood-netsim", MaxDev: maxDev, ShardLevels: 1, Params: map[string]interface{}{
 		"topologies": topoNames, "configurations": len(configs), "variants": c38Variants, "messages": fmt.Sprintf("1..%d (second one only when edges<=%d and nodes<=%d), originated at any node, the second at any point of the run", maxMsgs, twoMsgMaxEdges, twoMsgMaxNodes),
 		"per_delivery": []string{"deliver", "deliver and keep a network duplicate in flight (1 deviation)", "drop (1 deviation)"}[:fates], "max_deviations": maxDev, "max_deviations_with_two_messages": twoMsgDev, "max_deviations_with_6_or_more_edges": denseDev,
+		"origin_clock_of_first_message(single-message configurations)": clockNames, "virtual_time": fmt.Sprintf("at most %d jump(s) of %s on every node, at any point (single-message configurations)", jumps, c38Jump),
 		"delivery_order": "every order of the distinct in-flight messages"}},
 		func(x *mc.X) {
 			orig := cache
@@ -700,14 +740,26 @@ func TestVerifC38Flood(t *testing.T) {
 				nd.sub.pubs = nil
 			}
 
-			originate := func(o int) {
+			began := time.Now()
+			originate := func(o int, clock int) {
 				nd := net.nodes[o]
-				net.run(o, fmt.Sprintf("Multicast() at n%d", o), func() error {
-					return nd.svc.Multicast(&pb.MulticastMsg{Gid: gid.Bytes(), Data: []byte{byte(o)}})
-				})
-				x.Logf("n%d originates message n%d#%d", o, o, nd.svc.msgSeq)
+				ck := c38Clocks[clock]
+				info := &pb.MulticastMsg{Gid: gid.Bytes(), Data: []byte{byte(o)}}
+				id := nd.svc.msgSeq + 1
+				if clock != 0 {
+					id = 1000 // cannot collide with the node's own sequence numbers
+					info.Origin, info.Id = nd.addr.Bytes(), id
+					if !ck.zero {
+						info.CreateTime = time.Now().Add(ck.off).UnixMilli()
+					}
+					x.Tag("origin-clock-" + ck.name)
+				}
+				net.run(o, fmt.Sprintf("Multicast() at n%d", o), func() error { return nd.svc.Multicast(info) })
+				net.originated = append(net.originated, fmt.Sprintf("n%d#%d", o, id))
+				x.Logf("n%d (clock %s) originates message n%d#%d", o, ck.name, o, id)
 			}
-			originate(origin1)
+			originate(origin1, cf.clock)
+			jumpLeft := jumps
 
 			msgs := 1
 			if origin2 >= 0 {
@@ -744,15 +796,28 @@ func TestVerifC38Flood(t *testing.T) {
 				if opts == 0 {
 					break
 				}
+				jumpOpt := -1
+				if jumpLeft > 0 && msgs == 1 {
+					jumpOpt = opts
+					opts++
+				}
 				if step >= maxSteps {
 					x.Fail("flooding-does-not-stop", "%d messages still in flight after %d steps (bound: one forward per node and message)", len(net.inflight), step)
 				}
 				c := x.Choose(opts)
-				if c == len(distinct) {
+				if c == jumpOpt {
+					jumpLeft--
+					net.elapse(c38Jump)
+					x.Tag("virtual-time-jump")
+					x.Logf("step %d: %s pass on every node", step, c38Jump)
+					if time.Since(began) > 5*time.Second {
+						x.Broken("one execution took more than 5 s of real time; the virtual clock's 15 s margin is not safe any more")
+					}
+				} else if c == len(distinct) && origin2 >= 0 {
 					if len(net.inflight) > 0 {
 						x.Tag("second-message-while-first-in-flight")
 					}
-					originate(origin2)
+					originate(origin2, 0)
 					origin2 = -1
 				} else {
 					mi := distinct[c]
@@ -800,7 +865,7 @@ func TestVerifC38Flood(t *testing.T) {
 				if origin2 >= 0 {
 					pend = fmt.Sprint(origin2)
 				}
-				if x.Seen(fmt.Sprintf("%s/%d/%d|%s|dropped=%v", tp.name, variant, origin1, net.canon(pend), dropped > 0), maxSteps-step) {
+				if x.Seen(fmt.Sprintf("%s/%d/%d/%s/jumps=%d|%s|dropped=%v", tp.name, variant, origin1, c38Clocks[cf.clock].name, jumpLeft, net.canon(pend), dropped > 0), maxSteps-step) {
 					return
 				}
 			}
@@ -811,7 +876,7 @@ func TestVerifC38Flood(t *testing.T) {
 					continue
 				}
 				all := true
-				for mid := range net.allMessages() {
+				for _, mid := range net.originated {
 					if !strings.HasPrefix(mid, fmt.Sprintf("n%d#", nd.idx)) && nd.notified[mid] == 0 {
 						all = false
 					}
@@ -828,13 +893,28 @@ func TestVerifC38Flood(t *testing.T) {
 		})
 }
 
-// allMessages lists every (origin,id) that was originated in this execution.
-func (n *c38Net) allMessages() map[string]bool {
-	out := map[string]bool{}
+// elapse emulates d of time passing on every node as far as the
+// de-duplication state can tell: every cache entry with an expiry has d less
+// to live (entries without expiry and already expired entries are unaffected).
+func (n *c38Net) elapse(d time.Duration) {
 	for _, nd := range n.nodes {
-		for id := uint64(1); id <= nd.svc.msgSeq; id++ {
-			out[fmt.Sprintf("n%d#%d", nd.idx, id)] = true
+		keys, err := nd.cache.Keys(cacheCtx)
+		n.x.NoErr(err, "cache keys")
+		for _, k := range keys {
+			if k == nil { // gcache pads Keys() with nil for expired entries
+				continue
+			}
+			left, err := nd.cache.GetExpire(cacheCtx, k)
+			n.x.NoErr(err, "cache expiry")
+			if left > 24*time.Hour { // Set(..., 0): never expires
+				continue
+			}
+			nl := left - d
+			if nl == 0 { // 0 would mean "never expires"
+				nl = -time.Millisecond
+			}
+			_, err = nd.cache.UpdateExpire(cacheCtx, k, nl)
+			n.x.NoErr(err, "cache expiry update")
 		}
 	}
-	return out
 }
